@@ -11,6 +11,33 @@ E3 = "bounded exhaustive enumeration of inputs/programs/configurations executed 
 
 # pid -> (technique, level text, level note, design ref)
 CHECKS = {
+    "C01": (
+        E3,
+        "Exhaustive enumeration of a threshold-derived grid (1-3 battery groups, k batteries behind m inverters, SoC "
+        "at/inside/beyond limits, exclusion/inclusion bounds, exponents, both signs, requests on and around every "
+        "threshold) through the real BatteryDistributionAlgorithm: sum + remainder = request, signs, remainder "
+        "magnitude; plus the real BatteryManager over a fake API: reported succeeded power = sum of commanded set-points.",
+        "Decided on the stated grid only; client dataclasses and the harness reference computations of the "
+        "advertised bounds are trusted.",
+        "DESIGN.md §3 C01",
+    ),
+    "C02": (
+        E3,
+        "Same exhaustive grid as C01 with the bounds oracle: every inverter set-point is 0 or inside its inclusion "
+        "bounds and outside its exclusion zone, every group total inside the aggregated battery bounds and outside "
+        "the aggregated exclusion zone, groups without SoC headroom get exactly 0.",
+        "Decided on the stated grid only; aggregation rules recomputed independently by the harness.",
+        "DESIGN.md §3 C02",
+    ),
+    "C15": (
+        E1,
+        "All 5^n outcome vectors (ok / out-of-range / client error / unexpected exception / timeout) over the "
+        "set_power calls of the real BatteryManager and PVManager on the virtual loop, over 6-8 battery topologies and "
+        "5 PV sets x a request menu: succeeded + failed + excess = request, failed power = sum of failed set-points, "
+        "component sets disjoint and complete, Success iff no call failed.",
+        "ComponentPoolStatusTracker stubbed (all requested components working); fake API client; virtual clock.",
+        "DESIGN.md §3 C15",
+    ),
     "C14": (
         E1,
         "Every interleaving of request arrivals and distribute_power completions (ok/raise/instant) for up to 6 "
